@@ -36,6 +36,7 @@ package keysutil
 import (
 	"bytes"
 	"context"
+	"crypto/ed25519"
 	crand "crypto/rand"
 	"crypto/sha256"
 	"encoding/base64"
@@ -558,28 +559,92 @@ func (c *c17GCache) endOp(tag string) {
 
 // ------------------------------------------------------ reference model
 
-// c17CState is the sequential reference of one key ring.
-type c17CState struct {
+// c17KS is the sequential reference of one key name.
+type c17KS struct {
 	Latest, MinDec, MinEnc, MinAvail int
 	DelAllowed, Deleted              bool
+	// Orig: bit v is set while version v holds the key that produced the
+	// ciphertext / signature / HMAC of version v made when the scenario was
+	// set up (a rotate that creates version v anew, or a restore of a backup in
+	// which version v is another key, clears it).
+	Orig uint16
+}
+
+func (s c17KS) String() string {
+	if s.Deleted {
+		return "{absent}"
+	}
+	return fmt.Sprintf("{latest=%d min_dec=%d min_enc=%d min_avail=%d deletion_allowed=%v setup_keys=%s}", s.Latest, s.MinDec, s.MinEnc, s.MinAvail, s.DelAllowed, c17Bits(s.Orig))
+}
+
+func c17Bits(b uint16) string {
+	var vs []string
+	for v := 1; v < 16; v++ {
+		if b&(1<<uint(v)) != 0 {
+			vs = append(vs, "v"+strconv.Itoa(v))
+		}
+	}
+	return "[" + strings.Join(vs, " ") + "]"
+}
+
+func c17AllBits(latest int) uint16 {
+	var b uint16
+	for v := 1; v <= latest; v++ {
+		b |= 1 << uint(v)
+	}
+	return b
+}
+
+// c17St is a key with versions 1..latest, all made at setup.
+func c17St(latest, minDec, minEnc int) c17CState {
+	return c17CState{c17KS: c17KS{Latest: latest, MinDec: minDec, MinEnc: minEnc, Orig: c17AllBits(latest)}, K2: c17KS{Deleted: true}}
+}
+
+// c17CState is the sequential reference of a scenario: the key under test
+// (embedded), the second key name that restores may create, the backup taken
+// when the scenario was set up and the backups taken by the clients.
+type c17CState struct {
+	c17KS
+	K2    c17KS
+	B0    c17KS
+	Saved [3]c17KS
+	Has   [3]bool
 }
 
 func (s c17CState) String() string {
-	return fmt.Sprintf("{latest=%d min_dec=%d min_enc=%d min_avail=%d deletion_allowed=%v deleted=%v}", s.Latest, s.MinDec, s.MinEnc, s.MinAvail, s.DelAllowed, s.Deleted)
+	out := "k=" + s.c17KS.String()
+	if !s.K2.Deleted {
+		out += " k2=" + s.K2.String()
+	}
+	for i, h := range s.Has {
+		if h {
+			out += fmt.Sprintf(" backup-of-client-%d=%v", i, s.Saved[i])
+		}
+	}
+	return out
 }
 
 // c17CIn is one client operation. Arg: the value for config / trim, the
-// requested key version for encrypt / sign (0 = latest), the version label of
-// the presented ciphertext / signature for decrypt / verify.
+// requested key version for encrypt / sign / hmac (0 = latest), the version
+// label of the presented setup ciphertext / signature / HMAC for decrypt /
+// verify / hmacverify (a trailing 2 in the kind: through the second key name),
+// for restore* 0 = the backup taken at setup, 1 = the client's own latest
+// backup (Slot = client).
 type c17CIn struct {
 	Kind string
 	Arg  int
+	Slot int
 }
 
 func (i c17CIn) String() string {
 	switch i.Kind {
-	case "rotate", "read", "allow_delete", "delete", "backup":
+	case "rotate", "read", "read2", "allow_delete", "delete", "backup", "recreate":
 		return i.Kind
+	case "restore", "restore_noforce", "restore2", "restore2_noforce":
+		if i.Arg == 1 {
+			return i.Kind + "(own backup)"
+		}
+		return i.Kind + "(setup backup)"
 	}
 	return fmt.Sprintf("%s(%d)", i.Kind, i.Arg)
 }
@@ -610,16 +675,16 @@ func (o c17COut) String() string {
 	return "ERROR(" + o.Err + ")"
 }
 
-// c17CStep is the sequential specification: is out a legal answer to in in
-// state st, and what is the state afterwards.
-func c17CStep(st c17CState, in c17CIn, out c17COut) (bool, c17CState) {
+// c17KStep is the sequential specification of the operations on one key
+// name: is out a legal answer to in in state st, and the state afterwards.
+func c17KStep(st c17KS, in c17CIn, out c17COut) (bool, c17KS) {
 	if st.Deleted {
 		return out.NotFound, st
 	}
 	if out.NotFound || (!out.OK && !out.Refused) {
 		return false, st
 	}
-	produce := func() (bool, c17CState) {
+	produce := func() (bool, c17KS) {
 		k := in.Arg
 		switch {
 		case k == 0:
@@ -635,9 +700,9 @@ func c17CStep(st c17CState, in c17CIn, out c17COut) (bool, c17CState) {
 		}
 		return out.OK && out.Ver == k, st
 	}
-	consume := func() (bool, c17CState) {
+	consume := func() (bool, c17KS) {
 		v := in.Arg
-		want := v >= st.MinDec && v <= st.Latest && v >= 1
+		want := v >= st.MinDec && v <= st.Latest && v >= 1 && st.Orig&(1<<uint(v)) != 0
 		return out.OK == want, st
 	}
 	switch in.Kind {
@@ -646,6 +711,7 @@ func c17CStep(st c17CState, in c17CIn, out c17COut) (bool, c17CState) {
 			return false, st
 		}
 		st.Latest++
+		st.Orig &^= 1 << uint(st.Latest)
 		return true, st
 	case "min_dec":
 		v := in.Arg
@@ -685,19 +751,75 @@ func c17CStep(st c17CState, in c17CIn, out c17COut) (bool, c17CState) {
 			return false, st
 		}
 		if out.OK {
-			st.Deleted = true
+			st = c17KS{Deleted: true}
 		}
 		return true, st
-	case "encrypt", "sign":
+	case "encrypt", "sign", "hmac":
 		return produce()
-	case "decrypt", "verify":
+	case "decrypt", "verify", "hmacverify":
 		return consume()
 	case "read":
 		return out.OK && out.F == [4]int{st.Latest, st.MinDec, st.MinEnc, st.MinAvail}, st
-	case "backup":
-		return out.OK, st
 	}
 	return false, st
+}
+
+// c17CStep is the sequential specification of a scenario. A restore replaces
+// the whole state of its target name by the state held in the backup; a
+// backup records the state of the key; deleting and creating the key again
+// gives a new key with one version.
+func c17CStep(st c17CState, in c17CIn, out c17COut) (bool, c17CState) {
+	switch in.Kind {
+	case "decrypt2", "verify2", "hmacverify2", "read2":
+		in.Kind = strings.TrimSuffix(in.Kind, "2")
+		ok, ks := c17KStep(st.K2, in, out)
+		st.K2 = ks
+		return ok, st
+	case "backup":
+		if st.Deleted {
+			return out.NotFound, st
+		}
+		if !out.OK {
+			return false, st
+		}
+		st.Saved[in.Slot], st.Has[in.Slot] = st.c17KS, true
+		return true, st
+	case "recreate":
+		if out.Refused {
+			return true, st // the request failed without creating anything: not this property's business
+		}
+		if !out.OK {
+			return false, st
+		}
+		if st.Deleted {
+			st.c17KS = c17KS{Latest: 1, MinDec: 1}
+		}
+		return true, st
+	case "restore", "restore_noforce", "restore2", "restore2_noforce":
+		src := st.B0
+		if in.Arg == 1 {
+			if !st.Has[in.Slot] {
+				return out.Refused, st
+			}
+			src = st.Saved[in.Slot]
+		}
+		target := &st.c17KS
+		if strings.HasPrefix(in.Kind, "restore2") {
+			target = &st.K2
+		}
+		if strings.HasSuffix(in.Kind, "_noforce") && !target.Deleted {
+			return out.Refused, st
+		}
+		if !out.OK {
+			return false, st
+		}
+		*target = src
+		target.Deleted = false
+		return true, st
+	}
+	ok, ks := c17KStep(st.c17KS, in, out)
+	st.c17KS = ks
+	return ok, st
 }
 
 func c17CModel(init c17CState) porcupine.Model {
@@ -721,10 +843,23 @@ func c17CModel(init c17CState) porcupine.Model {
 // relates to the key when the clients start, and one program per client.
 type c17CScen struct {
 	Idx     int
-	Signing bool // ed25519 (sign / verify) instead of aes256-gcm96 (encrypt / decrypt)
-	Init    c17CState
-	Cache   string // fresh | invalidated | warm | lru-fresh | lru-evicted | lru-warm
+	Signing bool      // ed25519 (sign / verify) instead of aes256-gcm96 (encrypt / decrypt)
+	Init    c17CState // Init.B0: the key as it was when the setup backup was taken (restore scenarios)
+	Cache   string    // fresh | invalidated | warm | lru-fresh | lru-evicted | lru-warm
 	Clients [][]c17CIn
+	Light   bool // left out of the quick tier
+}
+
+// usesK2: some client restores onto the second key name.
+func (sc *c17CScen) usesK2() bool {
+	for _, c := range sc.Clients {
+		for _, o := range c {
+			if strings.HasPrefix(o.Kind, "restore2") {
+				return true
+			}
+		}
+	}
+	return false
 }
 
 func (sc *c17CScen) name() string {
@@ -762,8 +897,8 @@ var c17CCacheKinds = []string{"fresh", "invalidated", "lru-fresh", "lru-evicted"
 // Every exclusive request is followed, in the same client, by requests whose
 // answer must reflect it.
 func c17CScenarios(seed int64) []*c17CScen {
-	base := c17CState{Latest: 3, MinDec: 1}
-	trimmed := c17CState{Latest: 3, MinDec: 2, MinEnc: 2}
+	base := c17St(3, 1, 0)
+	trimmed := c17St(3, 2, 2)
 	type prim struct {
 		prog string
 		init c17CState
@@ -782,8 +917,14 @@ func c17CScenarios(seed int64) []*c17CScen {
 	var out []*c17CScen
 	add := func(signing bool, init c17CState, cache string, progs ...string) {
 		sc := &c17CScen{Idx: len(out), Signing: signing, Init: init, Cache: cache}
-		for _, p := range progs {
-			sc.Clients = append(sc.Clients, c17CParse(p))
+		for ci, p := range progs {
+			ops := c17CParse(p)
+			for i := range ops {
+				if ops[i].Kind == "backup" || strings.HasPrefix(ops[i].Kind, "restore") {
+					ops[i].Slot = ci
+				}
+			}
+			sc.Clients = append(sc.Clients, ops)
 		}
 		out = append(out, sc)
 	}
@@ -823,6 +964,44 @@ func c17CScenarios(seed int64) []*c17CScen {
 		}
 		add(false, init, ck, p.prog, strings.Fields(q.prog)[0], seconds[rng.Intn(len(seconds))])
 	}
+	// 4. backup / restore (with and without force, onto the same name and onto
+	// a second name) and delete + create again. The key has versions 1..3 and
+	// min_decryption_version 2; the setup backup was taken when it had versions
+	// 1..2 and min_decryption_version 1, so an acknowledged restore makes the
+	// version-1 output usable again, refuses version 3 as too new, and a rotate
+	// after it creates a version 3 that must not accept the old version-3 output.
+	rst := c17St(3, 2, 0)
+	rst.B0 = c17KS{Latest: 2, MinDec: 1, Orig: c17AllBits(2)}
+	rprims := []string{
+		"restore decrypt=1 decrypt=3 read",
+		"restore rotate decrypt=3 encrypt=0",
+		"backup rotate restore=1 read encrypt=0",
+		"allow_delete delete restore_noforce decrypt=1 read",
+		"restore2_noforce decrypt2=1 read2",
+		"allow_delete delete recreate encrypt=0 decrypt=1",
+		"restore_noforce read decrypt=1",
+	}
+	rseconds := []string{"rotate", "min_dec=3 decrypt=2", "encrypt=0 decrypt=1", "decrypt=1 read", "backup", "restore read", "restore2_noforce decrypt2=2", "rotate encrypt=0", "recreate read", "min_enc=3 encrypt=1"}
+	warm := []string{"warm", "lru-warm"}
+	cold := []string{"fresh", "invalidated", "lru-fresh", "lru-evicted"}
+	for pi, p := range rprims {
+		for si, s2 := range rseconds {
+			add(false, rst, warm[(pi+si)%2], p, s2)
+			add(false, rst, cold[(pi+si+int(uint64(seed)%4))%4], p, s2)
+			out[len(out)-1].Light = (pi+si+int(uint64(seed)%2))%2 == 0
+		}
+	}
+	for i, ck := range []string{"warm", "fresh", "lru-warm", "invalidated"} {
+		add(true, rst, ck, "restore verify=1 verify=3 sign=0", []string{"rotate", "sign=0 verify=1"}[i%2])
+		add(true, rst, ck, "restore rotate verify=3 sign=0", []string{"sign=0 verify=2", "rotate"}[i%2])
+	}
+	for i := 0; i < 16; i++ {
+		ck := c17CCacheKinds[rng.Intn(len(c17CCacheKinds))]
+		if i%2 == 0 {
+			ck = warm[i/2%2]
+		}
+		add(false, rst, ck, rprims[rng.Intn(len(rprims))], rseconds[rng.Intn(len(rseconds))], rseconds[rng.Intn(len(rseconds))])
+	}
 	return out
 }
 
@@ -853,6 +1032,9 @@ type c17CRun struct {
 	cache *c17GCache
 	plain []byte
 	cts   map[int]string // one ciphertext / signature per initial version
+	orig  map[int]string // fingerprint of the key that made cts[v]
+	b0    string         // backup taken at setup (restore scenarios)
+	own   [3]string      // latest backup taken by each client
 	stamp atomic.Int64
 
 	mu   sync.Mutex
@@ -860,6 +1042,9 @@ type c17CRun struct {
 }
 
 const c17CKey = "k"
+
+// c17CKey2 is the second name restores may create.
+const c17CKey2 = "k2"
 
 func c17KeyHash(ke KeyEntry) string {
 	h := sha256.Sum256(ke.Key)
@@ -873,7 +1058,7 @@ func c17CSigOpts() *SigningOptions {
 // c17CNewRun builds the key ring of the scenario on a fresh storage with a
 // throw-away lock manager and then the lock manager under test.
 func c17CNewRun(ctx context.Context, sc *c17CScen) (*c17CRun, error) {
-	u := &c17CRun{sc: sc, ctx: ctx, raw: &logical.InmemStorage{}, sched: c17NewSched(), plain: []byte("c17 concurrent plaintext"), cts: map[int]string{}}
+	u := &c17CRun{sc: sc, ctx: ctx, raw: &logical.InmemStorage{}, sched: c17NewSched(), plain: []byte("c17 concurrent plaintext"), cts: map[int]string{}, orig: map[int]string{}}
 	u.st = &c17GStore{inner: u.raw, s: u.sched}
 	kt := KeyType(KeyType_AES256_GCM96)
 	if sc.Signing {
@@ -904,6 +1089,18 @@ func c17CNewRun(ctx context.Context, sc *c17CScen) (*c17CRun, error) {
 					return err
 				}
 				u.cts[v] = ct
+			}
+			u.orig[v] = c17KeyHash(p.Keys[strconv.Itoa(v)])
+			if b0 := sc.Init.B0; v == b0.Latest {
+				p.MinDecryptionVersion, p.MinEncryptionVersion, p.DeletionAllowed = b0.MinDec, b0.MinEnc, b0.DelAllowed
+				if err := p.Persist(ctx, u.raw); err != nil {
+					return err
+				}
+				blob, err := p.Backup(ctx, u.raw)
+				if err != nil {
+					return err
+				}
+				u.b0 = blob
 			}
 		}
 		p.MinDecryptionVersion = sc.Init.MinDec
@@ -961,7 +1158,11 @@ func c17CNewRun(ctx context.Context, sc *c17CScen) (*c17CRun, error) {
 
 // with obtains the policy the way the request handlers do.
 func (u *c17CRun) with(exclusive bool, f func(p *Policy) c17COut) c17COut {
-	p, _, err := u.lm.GetPolicyWithLockType(u.ctx, PolicyRequest{Storage: u.st, Name: c17CKey}, crand.Reader, exclusive)
+	return u.withName(c17CKey, exclusive, f)
+}
+
+func (u *c17CRun) withName(name string, exclusive bool, f func(p *Policy) c17COut) c17COut {
+	p, _, err := u.lm.GetPolicyWithLockType(u.ctx, PolicyRequest{Storage: u.st, Name: name}, crand.Reader, exclusive)
 	if err != nil {
 		return c17COut{Err: "get policy: " + err.Error()}
 	}
@@ -1068,9 +1269,10 @@ func (u *c17CRun) exec(in c17CIn, rec *c17CRec) (out c17COut) {
 		}
 		return c17COut{Err: "delete: " + err.Error()}
 	case "backup":
-		_, err := u.lm.BackupPolicy(u.ctx, u.st, c17CKey)
+		blob, err := u.lm.BackupPolicy(u.ctx, u.st, c17CKey)
 		switch {
 		case err == nil:
+			u.own[in.Slot] = blob
 			return c17COut{OK: true}
 		case strings.Contains(err.Error(), "not found") || strings.Contains(err.Error(), "key has been deleted"):
 			return c17COut{NotFound: true}
@@ -1103,19 +1305,62 @@ func (u *c17CRun) exec(in c17CIn, rec *c17CRec) (out c17COut) {
 			return c17COut{OK: true, Ver: lv}
 		})
 	case "decrypt":
-		return u.decrypt(rec.Produced, rec.Plain)
+		return u.decrypt(c17CKey, rec.Produced, rec.Plain)
 	case "verify":
-		return u.verify(rec.Produced, rec.Plain)
-	case "read":
-		return u.with(false, func(p *Policy) c17COut {
+		return u.verify(c17CKey, rec.Produced, rec.Plain)
+	case "decrypt2":
+		return u.decrypt(c17CKey2, rec.Produced, rec.Plain)
+	case "verify2":
+		return u.verify(c17CKey2, rec.Produced, rec.Plain)
+	case "read", "read2":
+		name := c17CKey
+		if in.Kind == "read2" {
+			name = c17CKey2
+		}
+		return u.withName(name, false, func(p *Policy) c17COut {
 			return c17COut{OK: true, F: [4]int{p.LatestVersion, p.MinDecryptionVersion, p.MinEncryptionVersion, p.MinAvailableVersion}}
 		})
+	case "restore", "restore_noforce", "restore2", "restore2_noforce":
+		blob := u.b0
+		if in.Arg == 1 {
+			blob = u.own[in.Slot]
+		}
+		if blob == "" {
+			return c17CRefuse("no backup to restore")
+		}
+		name := c17CKey
+		if strings.HasPrefix(in.Kind, "restore2") {
+			name = c17CKey2
+		}
+		err := u.lm.RestorePolicy(u.ctx, u.st, name, blob, !strings.HasSuffix(in.Kind, "_noforce"))
+		switch {
+		case err == nil:
+			return c17COut{OK: true}
+		case strings.Contains(err.Error(), "already exists"):
+			return c17CRefuse("%v", err)
+		}
+		return c17COut{Err: "restore: " + err.Error()}
+	case "recreate":
+		kt := KeyType(KeyType_AES256_GCM96)
+		if u.sc.Signing {
+			kt = KeyType_ED25519
+		}
+		p, _, err := u.lm.GetPolicy(u.ctx, PolicyRequest{Upsert: true, Storage: u.st, Name: c17CKey, KeyType: kt, Exportable: true, AllowPlaintextBackup: true}, crand.Reader)
+		if err != nil {
+			return c17COut{Err: "create: " + err.Error()}
+		}
+		if p == nil {
+			// the lock manager found the cached policy of a key that is being deleted
+			return c17CRefuse("no policy returned")
+		}
+		p.Unlock()
+		return c17COut{OK: true}
 	}
 	return c17COut{Err: "unknown operation " + in.Kind}
 }
 
-func (u *c17CRun) decrypt(ct string, want []byte) c17COut {
-	return u.with(false, func(p *Policy) c17COut {
+func (u *c17CRun) decrypt(name, ct string, want []byte) c17COut {
+	return u.withName(name, false, func(p *Policy) c17COut {
 		got, err := c17Decrypt(p, nil, nil, ct)
 		if err != nil {
 			return c17CRefuse("%v", err)
@@ -1127,8 +1372,8 @@ func (u *c17CRun) decrypt(ct string, want []byte) c17COut {
 	})
 }
 
-func (u *c17CRun) verify(sig string, msg []byte) c17COut {
-	return u.with(false, func(p *Policy) c17COut {
+func (u *c17CRun) verify(name, sig string, msg []byte) c17COut {
+	return u.withName(name, false, func(p *Policy) c17COut {
 		ok, err := p.VerifySignatureWithOptions(nil, msg, sig, c17CSigOpts())
 		if err != nil {
 			return c17CRefuse("%v", err)
@@ -1146,7 +1391,7 @@ func (u *c17CRun) do(client int, tag string, idx int, in c17CIn) *c17CRec {
 	switch in.Kind {
 	case "encrypt", "sign":
 		rec.Plain = []byte(fmt.Sprintf("plaintext of %s#%d", tag, idx))
-	case "decrypt", "verify":
+	case "decrypt", "verify", "decrypt2", "verify2":
 		rec.Produced, rec.Plain = u.cts[in.Arg], u.plain
 	}
 	rec.Call = u.stamp.Add(1)
@@ -1283,12 +1528,215 @@ func c17CAcked(init c17CState, hist []*c17CRec, call, ret int64) (lb c17CState, 
 	return lb, by
 }
 
+// ------------------------------------------------ scenarios with restores
+
+var c17CMutKinds = map[string]bool{"rotate": true, "min_dec": true, "min_enc": true, "trim": true, "allow_delete": true, "delete": true, "backup": true, "recreate": true, "restore": true, "restore_noforce": true, "restore2": true, "restore2_noforce": true}
+
+func c17CIsReset(kind string) bool {
+	return strings.HasPrefix(kind, "restore") || kind == "recreate"
+}
+
+// hasResets: some client restores a backup or creates the key again, so the
+// state of the key is not monotone and the lower-bound rule does not apply.
+func (sc *c17CScen) hasResets() bool {
+	for _, c := range sc.Clients {
+		for _, o := range c {
+			if c17CIsReset(o.Kind) {
+				return true
+			}
+		}
+	}
+	return false
+}
+
+// c17CPossible lists the reference states in which an operation spanning
+// [call, ret] may have taken effect: the results of applying, in any order
+// consistent with real time and with their own answers, every accepted
+// state-changing operation that returned before call and any real-time
+// closed subset of those that overlap [call, ret]. An operation whose answer
+// is legal in none of them cannot be explained (necessary condition of
+// linearizability; it names the operation that saw the impossible state).
+func c17CPossible(init c17CState, hist []*c17CRec, self *c17CRec, call, ret int64) []c17CState {
+	var m []*c17CRec
+	for _, h := range hist {
+		if h != self && c17CMutKinds[h.In.Kind] && h.Out.OK && h.Call < ret {
+			m = append(m, h)
+		}
+	}
+	if len(m) > 14 {
+		return nil
+	}
+	var must uint
+	pred := make([]uint, len(m))
+	for i, a := range m {
+		if a.Ret < call {
+			must |= 1 << uint(i)
+		}
+		for j, b := range m {
+			if b.Ret < a.Call {
+				pred[i] |= 1 << uint(j)
+			}
+		}
+	}
+	type node struct {
+		mask uint
+		s    c17CState
+	}
+	visited := map[node]bool{}
+	seen := map[c17CState]bool{}
+	var dfs func(mask uint, s c17CState)
+	dfs = func(mask uint, s c17CState) {
+		if visited[node{mask, s}] {
+			return
+		}
+		visited[node{mask, s}] = true
+		if mask&must == must {
+			seen[s] = true
+		}
+		for i := range m {
+			if mask&(1<<uint(i)) != 0 || pred[i]&^mask != 0 {
+				continue
+			}
+			if ok, ns := c17CStep(s, m[i].In, m[i].Out); ok {
+				dfs(mask|1<<uint(i), ns)
+			}
+		}
+	}
+	dfs(0, init)
+	out := make([]c17CState, 0, len(seen))
+	for s := range seen {
+		out = append(out, s)
+	}
+	sort.Slice(out, func(i, j int) bool { return out[i].String() < out[j].String() })
+	return out
+}
+
+// c17CImpossible names the kind of disagreement between an answer and every
+// state the acknowledged operations allow.
+func c17CImpossible(h *c17CRec, states []c17CState) string {
+	kind, second := h.In.Kind, false
+	if strings.HasSuffix(kind, "2") && !strings.HasPrefix(kind, "restore") {
+		kind, second = strings.TrimSuffix(kind, "2"), true
+	}
+	all := func(pred func(k c17KS) bool) bool {
+		for _, s := range states {
+			k := s.c17KS
+			if second {
+				k = s.K2
+			}
+			if !pred(k) {
+				return false
+			}
+		}
+		return true
+	}
+	o, a := h.Out, h.In.Arg
+	bit := uint16(1) << uint(a&15)
+	switch {
+	case o.NotFound && all(func(k c17KS) bool { return !k.Deleted }):
+		return "C17-key-missing-although-acknowledged-to-exist"
+	case !o.NotFound && !c17CIsReset(kind) && all(func(k c17KS) bool { return k.Deleted }):
+		return "C17-key-usable-after-acknowledged-delete"
+	}
+	switch kind {
+	case "decrypt", "verify", "hmacverify":
+		switch {
+		case o.OK && all(func(k c17KS) bool { return a < k.MinDec }):
+			return "C17-" + kind + "-below-acknowledged-min-version"
+		case o.OK && all(func(k c17KS) bool { return a > k.Latest || k.Orig&bit == 0 }):
+			return "C17-" + kind + "-accepted-with-key-outside-acknowledged-state"
+		case o.Refused && all(func(k c17KS) bool { return a >= k.MinDec && a <= k.Latest && k.Orig&bit != 0 }):
+			return "C17-" + kind + "-refused-inside-acknowledged-window"
+		}
+	case "encrypt", "sign", "hmac":
+		switch {
+		case o.OK && all(func(k c17KS) bool { return k.MinEnc > 0 && o.Ver < k.MinEnc }):
+			return "C17-" + kind + "-below-acknowledged-min-encryption-version"
+		case o.OK && a == 0 && all(func(k c17KS) bool { return o.Ver != k.Latest }):
+			return "C17-" + kind + "-not-with-acknowledged-latest-version"
+		}
+	case "read":
+		return "C17-acknowledged-config-not-visible"
+	case "rotate":
+		return "C17-acknowledged-rotate-not-visible"
+	case "restore_noforce", "restore2_noforce":
+		if o.OK {
+			return "C17-restore-without-force-replaced-existing-key"
+		}
+	}
+	return "C17-" + kind + "-answer-impossible-after-acknowledged-operations"
+}
+
+// checkResets applies the real-time rule in scenarios with restores: every
+// answer must be legal in at least one state the acknowledged operations allow.
+func (u *c17CRun) checkResets(v *c17CVerdict, r *kit.Result, hist []*c17CRec) {
+	for _, h := range hist {
+		if !h.Out.OK && !h.Out.Refused && !h.Out.NotFound {
+			continue // failed request: reported by check
+		}
+		states := c17CPossible(u.sc.Init, hist, h, h.Call, h.Ret)
+		if len(states) == 0 {
+			continue // the accepted state changes alone have no order: left to the linearizability check
+		}
+		legal := false
+		for _, s := range states {
+			if ok, _ := c17CStep(s, h.In, h.Out); ok {
+				legal = true
+				break
+			}
+		}
+		var lastReset *c17CRec
+		for _, m := range hist {
+			if m != h && m.Out.OK && m.Ret < h.Call && (c17CIsReset(m.In.Kind) || m.In.Kind == "delete") && (lastReset == nil || m.Ret > lastReset.Ret) {
+				lastReset = m
+			}
+		}
+		if !legal {
+			after := ""
+			if lastReset != nil {
+				after = fmt.Sprintf("; last acknowledged replacement of the key before it: %v", lastReset)
+			}
+			var ss []string
+			for _, s := range states {
+				ss = append(ss, s.String())
+			}
+			v.violate(c17CImpossible(h, states), fmt.Sprintf("%v of client %s started at %d and was answered %v, which is legal in none of the %d state(s) the acknowledged operations allow at that point: %s%s", h.In, h.Tag, h.Call, h.Out, len(states), strings.Join(ss, " | "), after))
+			continue
+		}
+		r.Count("answers_legal_in_a_possible_state", 1)
+		if len(states) == 1 {
+			r.Count("answers_checked_against_exactly_one_possible_state", 1)
+		}
+		if h.Out.OK && c17CIsReset(h.In.Kind) {
+			r.Count("acknowledged_"+h.In.Kind, 1)
+		}
+		if h.Out.Refused && strings.HasSuffix(h.In.Kind, "_noforce") {
+			r.Count("restore_without_force_refused", 1)
+		}
+		if lastReset != nil && strings.HasPrefix(lastReset.In.Kind, "restore") {
+			r.Count("ops_started_after_an_acknowledged_restore", 1)
+			k := strings.TrimSuffix(h.In.Kind, "2")
+			if k == "decrypt" || k == "verify" || k == "hmacverify" {
+				if h.Out.OK {
+					r.Count("setup_output_accepted_after_acknowledged_restore", 1)
+				} else {
+					r.Count("setup_output_refused_after_acknowledged_restore", 1)
+				}
+			}
+		}
+		if lastReset != nil && lastReset.In.Kind == "recreate" {
+			r.Count("ops_started_after_an_acknowledged_recreate", 1)
+		}
+	}
+}
+
 // check applies the real-time rule and the linearizability check to the
 // history collected so far (clients + the harness's own probes).
 func (u *c17CRun) check(v *c17CVerdict, r *kit.Result) {
 	hist := append([]*c17CRec(nil), u.hist...)
 	sort.Slice(hist, func(i, j int) bool { return hist[i].Call < hist[j].Call })
 	rotVer := map[int]*c17CRec{}
+	resets := u.sc.hasResets()
 	for _, h := range hist {
 		o := h.Out
 		if !o.OK && !o.Refused && !o.NotFound {
@@ -1301,6 +1749,12 @@ func (u *c17CRun) check(v *c17CVerdict, r *kit.Result) {
 			}
 			v.violate(cls, fmt.Sprintf("%v of client %s: %s", h.In, h.Tag, o.Err))
 			continue
+		}
+		if resets {
+			if o.OK && c17CMutKinds[h.In.Kind] && h.In.Kind != "backup" {
+				r.Count("acknowledged_exclusive_ops", 1)
+			}
+			continue // judged by checkResets below
 		}
 		lb, by := c17CAcked(u.sc.Init, hist, h.Call, h.Ret)
 		if h.In.Kind == "rotate" || strings.HasPrefix(h.In.Kind, "min_") || h.In.Kind == "trim" || h.In.Kind == "delete" || h.In.Kind == "allow_delete" {
@@ -1363,6 +1817,9 @@ func (u *c17CRun) check(v *c17CVerdict, r *kit.Result) {
 			}
 		}
 	}
+	if resets {
+		u.checkResets(v, r, hist)
+	}
 	// linearizability of the whole history against the reference
 	ops := make([]porcupine.Operation, 0, len(hist))
 	for _, h := range hist {
@@ -1377,7 +1834,7 @@ func (u *c17CRun) check(v *c17CVerdict, r *kit.Result) {
 	case porcupine.Unknown:
 		r.Inconc("%s: linearizability check timed out", v.id)
 	case porcupine.Illegal:
-		v.violate("C17-concurrent-history-not-linearizable", "no sequential order of the operations on the key, consistent with their real-time order, explains the answers under the reference {latest, min_decryption_version, min_encryption_version, min_available_version, deletion}")
+		v.violate("C17-concurrent-history-not-linearizable", "no sequential order of the operations on the key, consistent with their real-time order, explains the answers under the reference {latest, min_decryption_version, min_encryption_version, min_available_version, deletion, which versions hold the setup keys; a restore replaces the whole state by the backup's}")
 	}
 }
 
@@ -1386,51 +1843,135 @@ func (u *c17CRun) check(v *c17CVerdict, r *kit.Result) {
 func (u *c17CRun) quiesce(v *c17CVerdict, r *kit.Result) {
 	end := u.stamp.Load() + 1
 	clientHist := append([]*c17CRec(nil), u.hist...)
-	final, _ := c17CAcked(u.sc.Init, clientHist, end, end)
+	resets := u.sc.hasResets()
+	final, _ := c17CAcked(u.sc.Init, clientHist, end, end) // lower-bound rule: scenarios without restores only
+	// Known signature: a forced restore of the key was acknowledged while a
+	// state-changing request that had started before that acknowledgement was
+	// still in flight. Every disagreement found at quiescence in such a run is
+	// reported once, under its own class.
+	holder := c17CRestoreHolder(clientHist)
+	var apart []string
+	bad := func(class, what string) {
+		if holder != "" {
+			apart = append(apart, "["+strings.TrimPrefix(class, "C17-")+"] "+what)
+			return
+		}
+		v.violate(class, what)
+	}
+	defer func() {
+		if len(apart) > 0 {
+			v.violate(c17CHolderClass, holder+": "+strings.Join(apart, " ;; "))
+		}
+	}()
 	// probes: they start after everything was acknowledged
-	u.do(len(u.sc.Clients), "z", 0, c17CIn{Kind: "read"})
+	zc := len(u.sc.Clients)
+	u.do(zc, "z", 0, c17CIn{Kind: "read"})
 	consume, produce := "decrypt", "encrypt"
 	if u.sc.Signing {
 		consume, produce = "verify", "sign"
 	}
 	for ver := 1; ver <= u.sc.Init.Latest; ver++ {
-		u.do(len(u.sc.Clients), "z", ver, c17CIn{Kind: consume, Arg: ver})
+		u.do(zc, "z", ver, c17CIn{Kind: consume, Arg: ver})
 	}
-	u.do(len(u.sc.Clients), "z", 10, c17CIn{Kind: produce, Arg: 0})
-	u.do(len(u.sc.Clients), "z", 11, c17CIn{Kind: produce, Arg: 1})
-	stored, err := LoadPolicy(u.ctx, u.raw, "policy/"+c17CKey)
-	if err != nil {
-		v.violate("C17-policy-unloadable", fmt.Sprintf("stored policy cannot be loaded at quiescence: %v", err))
-		return
+	u.do(zc, "z", 10, c17CIn{Kind: produce, Arg: 0})
+	u.do(zc, "z", 11, c17CIn{Kind: produce, Arg: 1})
+	names := []string{c17CKey}
+	if u.sc.usesK2() {
+		names = append(names, c17CKey2)
+		u.do(zc, "z", 20, c17CIn{Kind: "read2"})
+		for ver := 1; ver <= u.sc.Init.Latest; ver++ {
+			u.do(zc, "z", 20+ver, c17CIn{Kind: consume + "2", Arg: ver})
+		}
+	}
+	// what storage holds
+	type storedKey struct {
+		p    *Policy
+		arch *archivedKeys
+	}
+	stored := map[string]storedKey{}
+	for _, name := range names {
+		p, err := LoadPolicy(u.ctx, u.raw, "policy/"+name)
+		if err != nil {
+			v.violate("C17-policy-unloadable", fmt.Sprintf("stored policy %s cannot be loaded at quiescence: %v", name, err))
+			return
+		}
+		sk := storedKey{p: p}
+		if p != nil {
+			if sk.arch, err = p.LoadArchive(u.ctx, u.raw); err != nil {
+				bad("C17-archive-disagrees-with-policy-at-quiescence", fmt.Sprintf("archive of %s unloadable: %v", name, err))
+				return
+			}
+		}
+		stored[name] = sk
+	}
+	keyOf := func(sk storedKey, ver int) (KeyEntry, bool) {
+		if sk.p == nil {
+			return KeyEntry{}, false
+		}
+		if ke, ok := sk.p.Keys[strconv.Itoa(ver)]; ok {
+			return ke, true
+		}
+		if i := ver - sk.p.MinAvailableVersion; sk.arch != nil && i >= 0 && i < len(sk.arch.Keys) && ver >= 1 {
+			return sk.arch.Keys[i], true
+		}
+		return KeyEntry{}, false
+	}
+	// the reference state of what storage holds
+	refOf := func(sk storedKey) c17KS {
+		if sk.p == nil {
+			return c17KS{Deleted: true}
+		}
+		ks := c17KS{Latest: sk.p.LatestVersion, MinDec: sk.p.MinDecryptionVersion, MinEnc: sk.p.MinEncryptionVersion, MinAvail: sk.p.MinAvailableVersion, DelAllowed: sk.p.DeletionAllowed}
+		for ver := 1; ver <= sk.p.LatestVersion && ver <= u.sc.Init.Latest; ver++ {
+			if ke, ok := keyOf(sk, ver); ok && c17KeyHash(ke) == u.orig[ver] {
+				ks.Orig |= 1 << uint(ver)
+			}
+		}
+		return ks
 	}
 	// everything the clients produced must be consumable exactly when its
-	// version is in the window storage holds (storage itself is compared with
-	// the acknowledged operations below)
-	if !final.Deleted && stored != nil {
-		stored0MinDec := stored.MinDecryptionVersion
+	// version is in the window storage holds and the key storage holds for
+	// that version is the one that made it (opened here with the standard
+	// library directly); an output acknowledged after the last restore /
+	// delete / create must have been made with the stored key
+	sk := stored[c17CKey]
+	if sk.p != nil {
+		var lastReset *c17CRec
+		for _, h := range clientHist {
+			if h.Out.OK && (h.In.Kind == "restore" || h.In.Kind == "restore_noforce" || h.In.Kind == "recreate" || h.In.Kind == "delete") && (lastReset == nil || h.Ret > lastReset.Ret) {
+				lastReset = h
+			}
+		}
 		for _, h := range append([]*c17CRec(nil), u.hist...) {
 			if h.Produced == "" || !h.Out.OK || (h.In.Kind != "encrypt" && h.In.Kind != "sign") {
 				continue
 			}
 			var out c17COut
 			if u.sc.Signing {
-				out = u.verify(h.Produced, h.Plain)
+				out = u.verify(c17CKey, h.Produced, h.Plain)
 			} else {
-				out = u.decrypt(h.Produced, h.Plain)
+				out = u.decrypt(c17CKey, h.Produced, h.Plain)
 			}
-			want := h.Out.Ver >= stored0MinDec && h.Out.Ver <= stored.LatestVersion
+			ke, have := keyOf(sk, h.Out.Ver)
+			inWindow := h.Out.Ver >= sk.p.MinDecryptionVersion && h.Out.Ver <= sk.p.LatestVersion
+			opens := have && u.refOpens(h.In.Kind, h.Produced, h.Plain, ke)
+			want := inWindow && opens
 			switch {
 			case strings.HasPrefix(out.Err, "WRONG PLAINTEXT"):
 				v.violate("C17-concurrent-wrong-plaintext", fmt.Sprintf("output of %v decrypts to something else at quiescence: %s", h, out.Err))
+			case resets && lastReset != nil && h.Call > lastReset.Ret && (h.Out.Ver > sk.p.LatestVersion || (inWindow && !opens)):
+				bad("C17-output-acknowledged-after-restore-not-made-with-stored-key", fmt.Sprintf("%s output labelled v%d returned by %v, which started after the last replacement of the key (%v) had been acknowledged: storage holds latest=%d min_decryption_version=%d and its key of that version (present=%v) does not open the output; %s at quiescence answered %v", produce, h.Out.Ver, h, lastReset, sk.p.LatestVersion, sk.p.MinDecryptionVersion, have, consume, out))
 			case out.OK != want:
-				v.violate("C17-concurrent-output-not-consumable-at-quiescence", fmt.Sprintf("%s labelled v%d returned by %v: with storage at latest=%d min_decryption_version=%d, %s at quiescence answered %v", produce, h.Out.Ver, h, stored.LatestVersion, stored0MinDec, consume, out))
+				bad("C17-concurrent-output-not-consumable-at-quiescence", fmt.Sprintf("%s output labelled v%d returned by %v: with storage at latest=%d min_decryption_version=%d (stored key of that version opens it: %v), %s at quiescence answered %v", produce, h.Out.Ver, h, sk.p.LatestVersion, sk.p.MinDecryptionVersion, opens, consume, out))
 			default:
 				r.Count("produced_outputs_checked_at_quiescence", 1)
+				if resets && lastReset != nil && h.Call > lastReset.Ret && want {
+					r.Count("outputs_acknowledged_after_restore_open_with_stored_key", 1)
+				}
 			}
 		}
 	}
 	// cache / storage agreement
-	var servedDesc, storedDesc string
 	desc := func(p *Policy) string {
 		if p == nil {
 			return "absent"
@@ -1442,65 +1983,151 @@ func (u *c17CRun) quiesce(v *c17CVerdict, r *kit.Result) {
 		sort.Strings(vs)
 		return fmt.Sprintf("latest=%d min_dec=%d min_enc=%d min_avail=%d archive_version=%d archive_min_version=%d deletion_allowed=%v keys=%v", p.LatestVersion, p.MinDecryptionVersion, p.MinEncryptionVersion, p.MinAvailableVersion, p.ArchiveVersion, p.ArchiveMinVersion, p.DeletionAllowed, vs)
 	}
-	storedDesc = desc(stored)
-	p, _, gerr := u.lm.GetPolicy(u.ctx, PolicyRequest{Storage: u.raw, Name: c17CKey}, crand.Reader)
-	if gerr != nil {
-		v.violate("C17-policy-unloadable", fmt.Sprintf("GetPolicy at quiescence: %v", gerr))
-		return
-	}
-	servedDesc = desc(p)
-	if p != nil {
-		p.Unlock()
-	}
-	v.witness["served_at_quiescence"] = servedDesc
-	v.witness["stored_at_quiescence"] = storedDesc
-	if servedDesc != storedDesc {
-		v.violate("C17-cache-disagrees-with-storage-at-quiescence", fmt.Sprintf("after every request returned the lock manager serves {%s} while storage holds {%s}", servedDesc, storedDesc))
-	} else {
-		r.Count("quiescence_cache_storage_agree", 1)
-	}
-	// storage against the acknowledged operations
-	switch {
-	case final.Deleted:
-		if stored != nil {
-			v.violate("C17-acknowledged-update-missing-from-storage", "the delete was acknowledged but storage still holds the policy: "+storedDesc)
+	for _, name := range names {
+		storedDesc := desc(stored[name].p)
+		p, _, gerr := u.lm.GetPolicy(u.ctx, PolicyRequest{Storage: u.raw, Name: name}, crand.Reader)
+		if gerr != nil {
+			v.violate("C17-policy-unloadable", fmt.Sprintf("GetPolicy(%s) at quiescence: %v", name, gerr))
+			return
 		}
-		for _, k := range []string{"archive/" + c17CKey} {
-			if e, _ := u.raw.Get(u.ctx, k); e != nil {
-				v.violate("C17-acknowledged-update-missing-from-storage", "the delete was acknowledged but storage still holds "+k)
+		servedDesc := desc(p)
+		if p != nil {
+			p.Unlock()
+		}
+		v.witness["served_at_quiescence:"+name] = servedDesc
+		v.witness["stored_at_quiescence:"+name] = storedDesc
+		if servedDesc != storedDesc {
+			bad("C17-cache-disagrees-with-storage-at-quiescence", fmt.Sprintf("after every request returned the lock manager serves for %s {%s} while storage holds {%s}", name, servedDesc, storedDesc))
+		} else {
+			r.Count("quiescence_cache_storage_agree", 1)
+		}
+	}
+	storedDesc := desc(sk.p)
+	// storage against the acknowledged operations
+	if resets {
+		states := c17CPossible(u.sc.Init, clientHist, nil, end, end)
+		got, got2 := refOf(stored[c17CKey]), c17KS{Deleted: true}
+		if u.sc.usesK2() {
+			got2 = refOf(stored[c17CKey2])
+		}
+		same := func(a, b c17KS) bool {
+			if a.Deleted || b.Deleted {
+				return a.Deleted == b.Deleted
+			}
+			lo := a.MinAvail
+			if lo < 1 {
+				lo = 1
+			}
+			var mask uint16
+			for ver := lo; ver <= a.Latest && ver <= u.sc.Init.Latest; ver++ {
+				mask |= 1 << uint(ver)
+			}
+			return a.Latest == b.Latest && a.MinDec == b.MinDec && a.MinEnc == b.MinEnc && a.MinAvail == b.MinAvail && a.DelAllowed == b.DelAllowed && a.Orig&mask == b.Orig&mask
+		}
+		found := len(states) == 0
+		var ss []string
+		for _, s := range states {
+			if same(s.c17KS, got) && same(s.K2, got2) {
+				found = true
+			}
+			ss = append(ss, "k="+s.c17KS.String()+" k2="+s.K2.String())
+		}
+		if !found {
+			bad("C17-acknowledged-update-missing-from-storage", fmt.Sprintf("storage holds k=%v k2=%v, which is none of the %d state(s) the acknowledged operations can end in: %s", got, got2, len(states), strings.Join(ss, " | ")))
+		} else if len(states) > 0 {
+			r.Count("quiescence_storage_is_a_possible_final_state", 1)
+		}
+	} else {
+		switch {
+		case final.Deleted:
+			if sk.p != nil {
+				bad("C17-acknowledged-update-missing-from-storage", "the delete was acknowledged but storage still holds the policy: "+storedDesc)
+			}
+			if e, _ := u.raw.Get(u.ctx, "archive/"+c17CKey); e != nil {
+				bad("C17-acknowledged-update-missing-from-storage", "the delete was acknowledged but storage still holds archive/"+c17CKey)
+			}
+		case sk.p == nil:
+			bad("C17-acknowledged-update-missing-from-storage", "the policy vanished from storage although no delete was acknowledged")
+		default:
+			decs, _ := c17CCandidates("min_dec", u.sc.Init.MinDec, clientHist, end, end)
+			encs, _ := c17CCandidates("min_enc", u.sc.Init.MinEnc, clientHist, end, end)
+			avs, _ := c17CCandidates("trim", u.sc.Init.MinAvail, clientHist, end, end)
+			if sk.p.LatestVersion != final.Latest || !c17CHas(decs, sk.p.MinDecryptionVersion) || !c17CHas(encs, sk.p.MinEncryptionVersion) || !c17CHas(avs, sk.p.MinAvailableVersion) || sk.p.DeletionAllowed != final.DelAllowed {
+				bad("C17-acknowledged-update-missing-from-storage", fmt.Sprintf("the acknowledged operations amount to latest=%d min_dec in %v min_enc in %v min_avail in %v deletion_allowed=%v but storage holds {%s}", final.Latest, decs, encs, avs, final.DelAllowed, storedDesc))
+			} else {
+				r.Count("quiescence_storage_has_every_acknowledged_update", 1)
 			}
 		}
-	case stored == nil:
-		v.violate("C17-acknowledged-update-missing-from-storage", "the policy vanished from storage although no delete was acknowledged")
-	default:
-		decs, _ := c17CCandidates("min_dec", u.sc.Init.MinDec, clientHist, end, end)
-		encs, _ := c17CCandidates("min_enc", u.sc.Init.MinEnc, clientHist, end, end)
-		avs, _ := c17CCandidates("trim", u.sc.Init.MinAvail, clientHist, end, end)
-		if stored.LatestVersion != final.Latest || !c17CHas(decs, stored.MinDecryptionVersion) || !c17CHas(encs, stored.MinEncryptionVersion) || !c17CHas(avs, stored.MinAvailableVersion) || stored.DeletionAllowed != final.DelAllowed {
-			v.violate("C17-acknowledged-update-missing-from-storage", fmt.Sprintf("the acknowledged operations amount to latest=%d min_dec in %v min_enc in %v min_avail in %v deletion_allowed=%v but storage holds {%s}", final.Latest, decs, encs, avs, final.DelAllowed, storedDesc))
-		} else {
-			r.Count("quiescence_storage_has_every_acknowledged_update", 1)
+	}
+	// archive against policy
+	for _, name := range names {
+		sk := stored[name]
+		if sk.p == nil {
+			continue
 		}
-		arch, aerr := stored.LoadArchive(u.ctx, u.raw)
-		if aerr != nil {
-			v.violate("C17-archive-disagrees-with-policy-at-quiescence", fmt.Sprintf("archive unloadable: %v", aerr))
-			break
-		}
-		for ver := stored.MinDecryptionVersion; ver <= stored.LatestVersion; ver++ {
-			i := ver - stored.MinAvailableVersion
-			ke, ok := stored.Keys[strconv.Itoa(ver)]
+		for ver := sk.p.MinDecryptionVersion; ver <= sk.p.LatestVersion; ver++ {
+			i := ver - sk.p.MinAvailableVersion
+			ke, ok := sk.p.Keys[strconv.Itoa(ver)]
 			switch {
 			case !ok:
-				v.violate("C17-archive-disagrees-with-policy-at-quiescence", fmt.Sprintf("stored policy {%s} lacks usable version %d", storedDesc, ver))
-			case i < 0 || i >= len(arch.Keys):
-				v.violate("C17-archive-disagrees-with-policy-at-quiescence", fmt.Sprintf("stored archive has %d entries; version %d of {%s} is outside it", len(arch.Keys), ver, storedDesc))
-			case c17KeyHash(arch.Keys[i]) != c17KeyHash(ke):
-				v.violate("C17-archive-disagrees-with-policy-at-quiescence", fmt.Sprintf("archive entry of version %d holds key %s, the stored policy %s", ver, c17KeyHash(arch.Keys[i]), c17KeyHash(ke)))
+				bad("C17-archive-disagrees-with-policy-at-quiescence", fmt.Sprintf("stored policy %s {%s} lacks usable version %d", name, desc(sk.p), ver))
+			case i < 0 || i >= len(sk.arch.Keys):
+				bad("C17-archive-disagrees-with-policy-at-quiescence", fmt.Sprintf("stored archive of %s has %d entries; version %d of {%s} is outside it", name, len(sk.arch.Keys), ver, desc(sk.p)))
+			case c17KeyHash(sk.arch.Keys[i]) != c17KeyHash(ke):
+				bad("C17-archive-disagrees-with-policy-at-quiescence", fmt.Sprintf("archive entry of %s version %d holds key %s, the stored policy %s", name, ver, c17KeyHash(sk.arch.Keys[i]), c17KeyHash(ke)))
 			default:
 				r.Count("quiescence_archive_entries_agree", 1)
 			}
 		}
 	}
+}
+
+const c17CHolderClass = "C17-restore-concurrent-with-holder-leaves-cache-and-storage-apart"
+
+// c17COther counts the violations outside the known restore / holder
+// signature (exploration is cut short only by those).
+func c17COther(r *kit.Result) int {
+	return r.NViolations() - int(r.Get("violations:"+c17CHolderClass))
+}
+
+// c17CRestoreHolder describes, if the history has it, the signature "an
+// acknowledged restore with force onto the key overlapped a request that
+// obtains the key's policy exclusively (rotate / config / trim), which had
+// started before the restore was acknowledged, returned after it and was
+// acknowledged too".
+func c17CRestoreHolder(hist []*c17CRec) string {
+	for _, rs := range hist {
+		if rs.In.Kind != "restore" || !rs.Out.OK {
+			continue
+		}
+		for _, m := range hist {
+			switch m.In.Kind {
+			case "rotate", "min_dec", "min_enc", "trim", "allow_delete":
+				if m.Out.OK && m.Call < rs.Ret && m.Ret > rs.Ret {
+					return fmt.Sprintf("forced restore %v was acknowledged while %v, started before that acknowledgement, was in flight", rs, m)
+				}
+			}
+		}
+	}
+	return ""
+}
+
+// refOpens: does the output open to plain with this key entry, using the
+// standard library directly (AES-256-GCM: nonce || ciphertext || tag;
+// ed25519 over the message)?
+func (u *c17CRun) refOpens(kind, produced string, plain []byte, ke KeyEntry) bool {
+	_, body, ok := c17Parse(produced, base64.StdEncoding)
+	if !ok {
+		return false
+	}
+	if kind == "sign" {
+		if len(ke.Key) != ed25519.PrivateKeySize {
+			return false
+		}
+		return ed25519.Verify(ed25519.PrivateKey(ke.Key).Public().(ed25519.PublicKey), plain, body)
+	}
+	pt, err := c17RefOpen(c17Spec{Type: KeyType_AES256_GCM96}, ke.Key, nil, nil, body)
+	return err == nil && bytes.Equal(pt, plain)
 }
 
 // c17COrderHash identifies an interleaving by the order in which the
@@ -1623,7 +2250,7 @@ func c17CTags(sc *c17CScen) []string {
 
 // ---------------------------------------------------------------- tests
 
-const c17CRule = "case = one execution of 2-3 clients running short programs (raise min_decryption_version / min_encryption_version, rotate, trim, allow deletion + delete, encrypt, decrypt of an old-version ciphertext, sign, verify, read, backup) on ONE key through a cache-enabled keysutil.LockManager whose cache accesses and storage operations are scheduling points; cache situations: key never loaded, invalidated, evicted from the LRU, cached (sync.Map and LRU); non-trivial = distinct (scenario, order of cache/storage accesses). Oracle: sequential reference {latest, min_dec, min_enc, min_avail, deletion}: every acknowledged change is visible to every operation started after the acknowledgement, the history is linearizable (porcupine), and at quiescence the served policy equals the stored one and storage holds every acknowledged update"
+const c17CRule = "case = one execution of 2-3 clients running short programs (raise min_decryption_version / min_encryption_version, rotate, trim, allow deletion + delete, encrypt, decrypt of an old-version ciphertext, sign, verify, read, LockManager.BackupPolicy, RestorePolicy with and without force of the backup taken at setup or of the client's own backup onto the same name and onto a second name, delete followed by creating the key again) on ONE key through a cache-enabled keysutil.LockManager whose cache accesses and storage operations are scheduling points; cache situations: key never loaded, invalidated, evicted from the LRU, cached (sync.Map and LRU); non-trivial = distinct (scenario, order of cache/storage accesses). Oracle: sequential reference {latest, min_dec, min_enc, min_avail, deletion, which versions hold the keys that made the setup outputs; a restore replaces the whole state of its target by the backup's}: every acknowledged change is visible to every operation started after the acknowledgement (scenarios with restores: every answer must be legal in one of the states the acknowledged state changes allow; an output acknowledged after the last restore must open with the key storage holds at quiescence), the history is linearizable (porcupine), and at quiescence the served policy equals the stored one and storage holds every acknowledged update"
 
 func TestVerif_C17_ConcurrentGated(t *testing.T) {
 	seed := kit.Seed(17)
@@ -1659,9 +2286,16 @@ func TestVerif_C17_ConcurrentGated(t *testing.T) {
 		if sc.Idx%nshards != shard {
 			continue
 		}
+		if sc.Light && kit.Tier() == "quick" {
+			continue
+		}
 		maxRuns := kit.N(30, 1500)
 		if len(sc.Clients) > 2 || sc.Cache != "fresh" {
 			maxRuns = kit.N(15, 1500)
+		}
+		nrand := kit.N(10, 150)
+		if sc.hasResets() {
+			maxRuns, nrand = kit.N(12, 1500), kit.N(8, 150)
 		}
 		ex := &kit.Explorer{MaxPreempt: 2, MaxRuns: maxRuns}
 		stop := false
@@ -1674,13 +2308,13 @@ func TestVerif_C17_ConcurrentGated(t *testing.T) {
 			if out.Diverged {
 				r.Count("schedules_diverged_from_script", 1)
 			}
-			return out.Schedule, cont && r.NViolations() < 40
+			return out.Schedule, cont && c17COther(r) < 40
 		})
 		r.Count("scenarios", 1)
 		if stop {
 			continue
 		}
-		for q := 0; q < kit.N(10, 150); q++ {
+		for q := 0; q < nrand; q++ {
 			id := fmt.Sprintf("lmc:%d:%d:r:%d", shard, sc.Idx, q)
 			c17COne(ctx, r, sc, id, func() kit.Policy { return c17CRandPol(seed, sc, q) }, nil)
 		}
@@ -1695,6 +2329,16 @@ func TestVerif_C17_ConcurrentGated(t *testing.T) {
 	r.Require("encrypt_used_acknowledged_new_version", 100)
 	r.Require("not_found_after_acknowledged_delete", 100)
 	r.Require("lock_blocked_clients_seen", 1000)
+	r.Require("acknowledged_restore", 300)
+	r.Require("acknowledged_restore_noforce", 60)
+	r.Require("acknowledged_restore2_noforce", 100)
+	r.Require("restore_without_force_refused", 60)
+	r.Require("acknowledged_recreate", 100)
+	r.Require("ops_started_after_an_acknowledged_restore", 3000)
+	r.Require("setup_output_accepted_after_acknowledged_restore", 1000)
+	r.Require("setup_output_refused_after_acknowledged_restore", 500)
+	r.Require("outputs_acknowledged_after_restore_open_with_stored_key", 500)
+	r.Require("quiescence_storage_is_a_possible_final_state", 500)
 	r.Require("linearizable_histories", 2000)
 	r.Require("quiescence_cache_storage_agree", 2000)
 }
@@ -1726,7 +2370,14 @@ func TestVerif_C17_ConcurrentFree(t *testing.T) {
 		if sc.Idx%nshards != shard {
 			continue
 		}
-		for q := 0; q < iters; q++ {
+		if sc.Light && kit.Tier() == "quick" {
+			continue
+		}
+		n := iters
+		if sc.hasResets() && kit.Tier() == "quick" {
+			n = iters / 2
+		}
+		for q := 0; q < n; q++ {
 			id := fmt.Sprintf("lmf:%d:%d:%d", shard, sc.Idx, q)
 			if !kit.WantCase(id) {
 				continue
@@ -1734,7 +2385,7 @@ func TestVerif_C17_ConcurrentFree(t *testing.T) {
 			rng := kit.NewRand(seed, 1_717_600_000+uint64(sc.Idx)*100000+uint64(q))
 			den := 1 + rng.Intn(4)
 			c17COne(ctx, r, sc, id, nil, func() bool { return rng.Intn(den) == 0 })
-			if r.NViolations() >= 40 {
+			if c17COther(r) >= 40 {
 				return
 			}
 		}
